@@ -768,6 +768,8 @@ func (x *Exec) execRangeFunc(n *ast.RangeStmt, st *State, label string) *State {
 		for _, w := range ct.Witness {
 			if wt := c.eng.witnessType(ct, w); wt != nil {
 				names[w] = c.freshVal("wit."+w, wt, nil)
+				// the caller (a theorem) may name the witness of its k-th range loop as <w><k>, like Z<k>
+				st.ghost[fmt.Sprintf("%s%d", w, ord0)] = names[w]
 			}
 		}
 		for _, en := range ct.Ensures {
